@@ -29,6 +29,8 @@ def _merge(agg, res):
   for k, v in res['counters'].items():
     agg['counters'][k] += v
   for k, v in res['maxerr'].items():
+    if isinstance(v, str):  # 'inf' / 'nan' as serialised by jsonable
+      v = float('inf')
     if v > agg['maxerr'].get(k, -1.0):
       agg['maxerr'][k] = v
   for k, v in res['known_hits'].items():
@@ -320,4 +322,14 @@ def replay(prop, mod, path):
 
 
 if __name__ == '__main__':
-  sys.exit(main())
+  try:
+    rc = main()
+  except SystemExit:
+    raise
+  except BaseException:  # pylint: disable=broad-except
+    # a crash of the harness itself is never a verdict on the property
+    import traceback
+    traceback.print_exc()
+    print('INCONCLUSIVE harness error (see traceback)')
+    rc = 2
+  sys.exit(rc)
